@@ -55,6 +55,11 @@ type Step struct {
 	Variant int    `json:"variant,omitempty"`
 	// Preempt: valid Basic credentials sent before any challenge on the connection.
 	Preempt bool `json:"preempt,omitempty"`
+	// Useless (cred none): the request carries an Authorization header that provides no usable
+	// credentials - "bearer" (a scheme the server does not know), "empty-basic" (Basic with an empty
+	// user name and password), "empty-digest" (Digest with an empty user name). It must be challenged
+	// like a request without the header; what happens to the connection is not asserted.
+	Useless string `json:"useless,omitempty"`
 }
 
 // Scenario is one C10 run.
@@ -84,7 +89,7 @@ var probeNames = []string{
 	"method_basic", "method_digest_md5", "method_digest_sha256", "password_with_colon", "setup_track_url",
 	"perturb_user", "perturb_pass", "perturb_realm", "perturb_nonce", "perturb_method", "perturb_algorithm", "perturb_uri",
 	"perturb_scheme_not_enabled", "perturb_response", "conn_kept_after_challenge", "conn_closed_after_wrong_credentials",
-	"workload_a", "workload_b", "workload_c", "preemptive_basic", "empty_path_url", "record_flow", "client_wrong_credentials_rejected",
+	"workload_a", "workload_b", "workload_c", "preemptive_basic", "empty_path_url", "useless_authorization_header", "record_flow", "client_wrong_credentials_rejected",
 	"challenge_checked", "valid_accepted", "setup_base_url_form_accepted", "setup_base_url_form_rejected",
 	"uri_abs_path_form_accepted", "uri_abs_path_form_rejected", "nonce_of_other_connection", "algorithm_absent_md5",
 	"url_with_query", "url_with_escapes", "url_at_then_percent", "unicode_credentials",
@@ -140,6 +145,9 @@ func credURL(raw, user, pass string) (*base.URL, string, error) {
 		return nil, "", err
 	}
 	u.User = url.UserPassword(user, pass)
+	if pass == "" && len(user)%2 == 0 {
+		u.User = url.User(user) // "user@host": no colon, no password component at all
+	}
 	full := u.String()
 	u2, err := base.ParseURL(full)
 	if err != nil {
